@@ -627,6 +627,7 @@ def _shared_static_state(prog):
 
 
 SELFTESTS = [
+    (rule_errno_decisions, ["c18_errno_bad.cc"], ["c18_errno_good.cc"], "decision on errno"),
     (rule_show_config_region, ["c16_policy_bad.cc"], ["c16_policy_good.cc"], "show-config::"),
     (rule_verbose_regions, ["c18_bad.cc"], ["c18_good.cc"], "verbose-region"),
     (rule_layering, ["c18_bad.cc"], ["c18_good.cc"], "lib_identify"),
